@@ -1894,6 +1894,11 @@ void BW_MidiSequencer::handleEvent(size_t track, const BW_MidiSequencer::MidiEve
         /* never reject track 0 timing events on SMF format != 2
            note: multi-track XMI convert to format 2 SMF */
     }
+    else if(evt.type == MidiEvent::T_SPECIAL && evt.subtype == MidiEvent::ST_SONG_BEGIN_HOOK)
+    {
+        /* the synthetic song-begin event belongs to no track: the state reset it carries
+           is what the replay of a seek or of the next loop pass starts from */
+    }
     else
     {
         if(m_trackSolo != ~static_cast<size_t>(0) && track != m_trackSolo)
